@@ -94,6 +94,8 @@ func Counts(db protocol.ChainDB, h common.Hash) map[string]int64 {
 }
 
 // NUT is the node under test: a real chain.BlockChain on its own database.
+// Note: store.ChainDatabase.Close leaves two goroutines and ~4 MB of queue buffers (NewSyncFileDB / NewFileQueue) behind per
+// opened database, so one replay process should not run more than a few hundred behaviours (checks/c04.py sizes the shards).
 type NUT struct {
 	W   *node.World
 	Dir string
